@@ -12,7 +12,8 @@ LEVEL = "exploration"
 RULE = (
     "case = (signature with 0-4 parameters and trailing defaults, call mixing positional/named/omitted arguments given as "
     "literals, caller variables or simple expressions, call form in {await, assign-await, start+match Finished, activate, "
-    "await-in-or-group, when}, return expression) or a sibling-instances scenario; non-trivial = >=2 parameters with at least one "
+    "await-in-or-group, when}, return expression) or a sibling-instances scenario or a repeated call whose callee mutates, in place, containers born from "
+    "literals (defaults, literal arguments, local initialisers; the next call and the caller must see pristine values); non-trivial = >=2 parameters with at least one "
     "default used or one named argument; distinct = program text"
 )
 MIN_HELD = {"quick": 3000, "thorough": 60000}
@@ -144,6 +145,9 @@ def cases(tier, seed):
     m = 300 if tier == "quick" else 3000
     for i in range(m):
         yield {"id": n + i, "fam": "siblings", "seed": base + i}
+    k = 600 if tier == "quick" else 6000
+    for i in range(k):
+        yield {"id": n + m + i, "fam": "mutate", "seed": base + i}
 
 
 def setup_worker():
@@ -262,7 +266,105 @@ def run_siblings(case):
     return dict(base, verdict="held", observed=obs)
 
 
+CONTAINERS = [[1, "a"], [], [[1], {"z": [2]}], ["s"], {"k": 1}, {}, {"d": [0]}, [None, True]]
+
+
+def _mutated(v):
+    if isinstance(v, list):
+        return v + ["m"]
+    d = dict(v)
+    d["m"] = 1
+    return d
+
+
+def _mut_stmt(name, v):
+    return '  ($%s.append("m"))\n' % name if isinstance(v, list) else '  ($%s.update({"m": 1}))\n' % name
+
+
+def run_mutate(case):
+    """The callee mutates, IN PLACE and after its first wait, containers that were born from a literal in its own
+    scope (declared default, literal argument written at the call site, local initialiser). Every evaluation of a literal
+    yields a fresh value: the 2nd/3rd call with the same call text sees the pristine default / argument / local again,
+    and a caller variable initialised from the same literal text is not changed."""
+    from . import v2h
+
+    L = v2h.load()
+    rng = random.Random(case["seed"])
+    npar = rng.randint(1, 3)
+    names = ["p%d" % i for i in range(npar)]
+    defaults = {nm: rng.choice(CONTAINERS) for nm in names}
+    ncalls = rng.randint(2, 3)
+    # one call text, repeated: per parameter either omitted (default), a positional literal (first parameter only) or a named literal
+    given = {}
+    call = "worker"
+    for i, nm in enumerate(names):
+        r = rng.random()
+        if r < 0.45:
+            continue
+        v = rng.choice(CONTAINERS)
+        if i == 0 and r < 0.7 and v not in ([], {}):
+            call += " " + lit(v)
+        else:
+            call += " $%s=%s" % (nm, lit(v))
+        given[nm] = v
+    exp = {nm: given.get(nm, defaults[nm]) for nm in names}
+    loc = rng.choice([c for c in CONTAINERS])
+    caller_x = rng.choice([loc, rng.choice(list(exp.values())), rng.choice(CONTAINERS)])  # often the very same literal text
+    sig = " ".join("$%s=%s" % (nm, lit(defaults[nm])) for nm in names)
+    echo = ", ".join("%s=$%s" % (nm, nm) for nm in names)
+    src = "flow main\n  $x = %s\n" % lit(caller_x) + "".join("  await %s\n" % call for _ in range(ncalls)) + "  send Ret(x=$x)\n  match Never()\n\n"
+    src += "flow worker %s\n  $x = %s\n  send Echo(%s, x=$x)\n  match Release()\n" % (sig, lit(loc), echo)
+    src += "".join(_mut_stmt(nm, exp[nm]) for nm in names) + _mut_stmt("x", loc)
+    src += "  send EchoM(%s, x=$x)\n" % echo
+    L["random"].reset(seed=case["seed"])
+    base = {"key": src, "nontrivial": True, "sample": {"program": src, "expected_params": exp}, "form": "mutate"}
+    obs = {"form_mutate": 1, "params_checked": 0, "locals_checked": 0, "inplace_mutations_observed": 0}
+    try:
+        st = v2h.mk(src)
+    except v2h.LoaderReject as e:
+        return dict(base, verdict="inconclusive", reason="loader-reject", detail=str(e)[:300] + "\n" + src, nontrivial=False)
+    problems = []
+    import copy
+
+    # outgoing events alias the flow's variable objects: snapshot them before the next step mutates those in place
+    events = copy.deepcopy([dict(e) for e in st.outgoing_events])
+    try:
+        for _ in range(ncalls):
+            events += copy.deepcopy(v2h.run(st, {"type": "Release"}))
+    except Exception as e:
+        problems.append("exception: %s: %s" % (type(e).__name__, str(e)[:200]))
+    echoes = [e for e in events if e["type"] == "Echo"]
+    echoms = [e for e in events if e["type"] == "EchoM"]
+    rets = [e for e in events if e["type"] == "Ret"]
+    if len(echoes) != ncalls or len(echoms) != ncalls:
+        problems.append("echo-count %d/%d != %d" % (len(echoes), len(echoms), ncalls))
+    for j, e in enumerate(echoes):
+        got = {nm: e.get(nm) for nm in names}
+        obs["params_checked"] += len(names)
+        if not same(got, exp):
+            problems.append("param-mismatch call=%d got=%r expected=%r" % (j + 1, got, exp))
+        obs["locals_checked"] += 1
+        if not same(e.get("x"), loc):
+            problems.append("callee-local call=%d x=%r expected=%r" % (j + 1, e.get("x"), loc))
+    for e in echoms:
+        if same({nm: e.get(nm) for nm in names}, {nm: _mutated(exp[nm]) for nm in names}) and same(e.get("x"), _mutated(loc)):
+            obs["inplace_mutations_observed"] += 1
+    if len(rets) != 1:
+        problems.append("ret-count %d" % len(rets))
+    for r in rets:
+        obs["locals_checked"] += 1
+        if not same(r.get("x"), caller_x):
+            problems.append("local-leak caller x=%r expected=%r" % (r.get("x"), caller_x))
+    if not problems and obs["inplace_mutations_observed"] != ncalls:
+        return dict(base, verdict="inconclusive", reason="mutation-not-observed", observed=obs, detail=repr([strip(e) for e in echoms])[:400])
+    if problems:
+        return dict(base, verdict="violated", observed=obs, witness={"program": src, "problems": problems, "events": [dict(strip(e), type=e["type"]) for e in events]}, problems=[p_.split(" ")[0] for p_ in problems])
+    return dict(base, verdict="held", observed=obs)
+
+
 def run_case(case):
+    if case["fam"] == "mutate":
+        return run_mutate(case)
     return run_bind(case) if case["fam"] == "bind" else run_siblings(case)
 
 
